@@ -281,8 +281,43 @@ static std::string replayEvents(const Replay &r) {
     return "";
 }
 
+// ---- return value of SCPI_Input when one call carries several messages, an incomplete tail, or overruns the buffer:
+// FALSE exactly when it overran the input buffer or the LAST message it executed raised at least one error
+static std::string bodyRet(Src &s, Ev &ev) {
+    InstCfg k; k.queueLen = 64; k.heapLen = 1024;
+    { Cmd c; c.pattern = "OK"; k.cmds.push_back(c); }
+    { Cmd c; c.pattern = "ARG"; c.script.readers.push_back(Reader()); k.cmds.push_back(c); }
+    { Cmd c; c.pattern = "SILent"; c.script.retOk = false; k.cmds.push_back(c); }
+    { Cmd c; c.pattern = "Q?"; OItem it; it.kind = O_I32; it.u = 5; c.script.items.push_back(it); k.cmds.push_back(c); }
+    static const struct { const char *text; bool err; } unitsTab[] = {{"OK", false}, {"ARG 1", false}, {"Q?", false}, {"NOSUCH", true}, {"ARG", true}, {"ARG 1,2", true}, {"SIL", true}, {"ARG 'x'", true}, {"OK @", true}, {"", false}};
+    int nm = (int) s.range(1, 4);
+    std::string call; bool lastErr = false, any = false; std::string shape;
+    for (int m = 0; m < nm; m++) {
+        int nu = (int) s.range(1, 3); bool err = false;
+        for (int u = 0; u < nu; u++) { auto &t = unitsTab[s.range(0, 9)]; call += (u ? ";" : "") + std::string(t.text); err |= t.err; }
+        call += s.pick(std::vector<std::string>{"\n", "\r\n"});
+        lastErr = err; any = true; shape += err ? 'E' : 'o';
+    }
+    bool tail = s.prob(1, 3);
+    if (tail) { call += s.pick(std::vector<std::string>{"OK", "ARG 1,", "NOSU", "ARG #15ab", " "}); shape += 't'; }
+    bool overrun = s.prob(1, 8) && call.size() >= 2;      // a buffer is at least 2 bytes: shorter calls always fit
+    k.bufLen = overrun ? std::max((size_t) 2, call.size() - (size_t) s.range(0, std::min(call.size() - 1, (size_t) 3))) : call.size() + 1 + s.range(0, 4);
+    Inst I(k);
+    bool ret = I.input(call);
+    ev.eval();
+    if (!I.invariant.empty()) return I.invariant;
+    bool expect = overrun ? false : !(any && lastErr);
+    if (overrun) { if (!(I.errors.size() == 1 && I.errors[0] == -363) || I.handlerCalls) return "a chunk that does not fit (keeping one byte for the NUL) must queue exactly -363 and execute nothing: '" + vis(call) + fmt("' buffer %zu", k.bufLen); shape += 'X'; }
+    if (ret != expect) return fmt("SCPI_Input returned %d, expected %d (FALSE iff overrun or the last executed message raised an error) for one call with '", (int) ret, (int) expect) + vis(call) + fmt("' (buffer %zu)", k.bufLen);
+    ev.label("ret-shape-" + shape);
+    if (nm >= 2 || tail || overrun) { ev.nt(hashStr(call + (overrun ? "X" : ""))); if (ev.wantSample()) ev.sample("one SCPI_Input call: '" + vis(call) + "' -> " + (ret ? "TRUE" : "FALSE")); }
+    return "";
+}
+
 int main(int argc, char **argv) {
     std::vector<Sub> subs;
+    subs.push_back({"ret", [](const Opt &o, Ev &ev) { runRandom(o, ev, "ret", 60, o.quick() ? 20000 : 200000, bodyRet); },
+                    [](const Replay &r) { auto v = r.choices(); Src s(v); Ev e; return bodyRet(s, e); }});
     subs.push_back({"events", [](const Opt &, Ev &) {}, replayEvents});
     subs.push_back({"rand", [](const Opt &o, Ev &ev) { runRandom(o, ev, "rand", 520, o.quick() ? 30000 : 300000, body); },
                     [](const Replay &r) { auto v = r.choices(); Src s(v); Ev e; return body(s, e); }});
